@@ -1,4 +1,5 @@
 from common import COMMON_TRUST
+from wt_common import e2e_engine
 
 PROP = {
     "generated": ["HandlerFlags", "FlushTable"],
@@ -7,6 +8,7 @@ PROP = {
                      "SwimVerif.Proofs.HandlersFlush", "SwimVerif.Proofs.HandlersMap", "SwimVerif.Generated.HandlerFlags",
                      "SwimVerif.Generated.FlushTable"],
     "engines": [
+        e2e_engine("C06", quick=600, thorough=20000),
         # lock-step: one request at a time, run to quiescence; model diff + monitor
         {"name": "handlers-seq", "crate": "core", "bin": "sv-c06", "machine": "c06",
          "cases": {"quick": 40000, "thorough": 1800000}, "min_shard": 2000, "nontrivial_min_ops": 2},
